@@ -29,6 +29,7 @@ import (
 
 type fixture struct {
 	H                  hash.Hasher // the shared KMAC128 hasher
+	Hused              hash.Hasher // a second shared KMAC128 hasher that was used for streaming before (Write, SumHash, Reset)
 	pop                hash.Hasher // package-level PoP hasher
 	sk1, sk2           crypto.PrivateKey
 	pk1, pk2           crypto.PublicKey
@@ -99,6 +100,11 @@ func cp(b []byte) []byte { return append([]byte(nil), b...) }
 func (r *recipe) fresh() *fixture {
 	f := &fixture{}
 	f.H = crypto.NewExpandMsgXOFKMAC128("c19")
+	// non-initial state of a hasher: legitimately used as a streaming hasher before it is shared
+	f.Hused = crypto.NewExpandMsgXOFKMAC128("c19-used")
+	_, _ = f.Hused.Write([]byte("earlier streaming use"))
+	_ = f.Hused.SumHash()
+	f.Hused.Reset()
 	f.pop = crypto.VerifPopKMAC()
 	f.sk1 = must(crypto.GeneratePrivateKey(crypto.BLSBLS12381, r.seedB1))
 	f.sk2 = must(crypto.GeneratePrivateKey(crypto.BLSBLS12381, r.seedB2))
@@ -127,6 +133,7 @@ func (r *recipe) fresh() *fixture {
 	f.sigP, f.sigS = sigs[6], sigs[7]
 	add := func(n string, v any) { f.names = append(f.names, n); f.shared = append(f.shared, v) }
 	add("kmac-hasher", f.H)
+	add("kmac-hasher-used-before", f.Hused)
 	add("pop-hasher", f.pop)
 	add("bls-sk1", f.sk1)
 	add("bls-sk2", f.sk2)
@@ -238,6 +245,8 @@ var ops = []opDef{
 		return fmt.Sprintf("%x", k.Encode())
 	}},
 	{"BLS.Sign(sk2,m2,H)", func(f *fixture) string { s, err := f.sk2.Sign(f.m2, f.H); return fmt.Sprintf("%x,%v", []byte(s), err) }},
+	{"KMAC[used before].ComputeHash(m1)", func(f *fixture) string { return fmt.Sprintf("%x", []byte(f.Hused.ComputeHash(f.m1))) }},
+	{"KMAC[used before].ComputeHash(m2)", func(f *fixture) string { return fmt.Sprintf("%x", []byte(f.Hused.ComputeHash(f.m2))) }},
 	{"AggregateBLSPublicKeys([pk1,pk2]).Encode", func(f *fixture) string {
 		k, err := crypto.AggregateBLSPublicKeys([]crypto.PublicKey{f.pk1, f.pk2})
 		if err != nil {
@@ -671,7 +680,7 @@ func main() {
 	run.Set("states", run.Get("executions"))
 	run.Set("preemption_bound", map[string]int{"two_threads": b2, "three_threads": b3})
 	run.Set("max_schedules_per_program", map[string]int{"two_threads": m2, "three_threads": m3})
-	run.Set("rule", "program = 2 threads (thorough also 3 with a ComputeHash) running one operation each from the 25-operation alphabet (list-taking operations in two variants with different inputs and results) (KMAC ComputeHash x2 on ONE shared hasher, BLS Sign/Verify/VerifyPOP/GeneratePOP/SPOCKVerify/aggregate/many-message/batch verification sharing keys, that hasher and the package-level PoP hasher, ECDSA Sign/Verify on both curves with per-thread hashers): all unordered pairs, plus all ordered pairs (x, y) as 'one call of x overlapped by two successive calls of y' (the point between the two calls is a free switch point); every execution starts from FRESH shared objects (new hasher, public keys decoded from bytes and never used before), so first use / lazy initialisation is inside the explored schedules; for each program ALL schedules within the preemption bound over statement-level scheduling points in hash/kmac.go, bls.go, bls_multisig.go, spock.go, ecdsa.go; monitors: results equal the solo results, and after EVERY scheduling point a deep reflective snapshot of all shared objects and of the two frames that hold every message and signature (sub-slices with spare capacity, guard bytes) equals the initial one. executions = complete schedules; distinct_nontrivial = programs.")
+	run.Set("rule", "program = 2 threads (thorough also 3 with a ComputeHash) running one operation each from the 27-operation alphabet (incl. ComputeHash on a hasher that was used for streaming before it was shared) (list-taking operations in two variants with different inputs and results) (KMAC ComputeHash x2 on ONE shared hasher, BLS Sign/Verify/VerifyPOP/GeneratePOP/SPOCKVerify/aggregate/many-message/batch verification sharing keys, that hasher and the package-level PoP hasher, ECDSA Sign/Verify on both curves with per-thread hashers): all unordered pairs, plus all ordered pairs (x, y) as 'one call of x overlapped by two successive calls of y' (the point between the two calls is a free switch point); every execution starts from FRESH shared objects (new hasher, public keys decoded from bytes and never used before), so first use / lazy initialisation is inside the explored schedules; for each program ALL schedules within the preemption bound over statement-level scheduling points in hash/kmac.go, bls.go, bls_multisig.go, spock.go, ecdsa.go; monitors: results equal the solo results, and after EVERY scheduling point a deep reflective snapshot of all shared objects and of the two frames that hold every message and signature (sub-slices with spare capacity, guard bytes) equals the initial one. executions = complete schedules; distinct_nontrivial = programs.")
 	run.Assume("private keys have their public key computed before the threads start (lazy public-key caching of private keys is not part of the listed operations)", "interleavings at statement granularity of the instrumented Go files, sequentially consistent; calls into x/crypto, the standard library and C are atomic steps (data races inside them are invisible to this technique)", "ECDSA Sign is randomised: its output is verified, not compared")
 	run.Finish()
 }
